@@ -59,6 +59,11 @@ CHECKS = {
     technique="TLA+ exact segment integrals of |f|^p (rational arithmetic) with their consistency identities and the stability inequality on the definitions model-checked by TLC; recorded p-norms / sup-norms of real landscape objects validated by TLC in fixed-point arithmetic against the integral of the observed critical points",
     text="TLC checks additivity under splitting at every interior tick, agreement of the one-signed and sign-crossing branches, the trapezoid rule and symmetries for all segments within the constants (|y|<=3..4, L<=3..4, p<=4..6), and sup|lambda_k(X)-lambda_k(Y)| <= bottleneck on the definitional operators for all pairs of <=2 bars. Exact and grid landscapes, differences and linear combinations produced by the real operators (sign changes), arbitrary zero-ended critical points and perfect-square ordinates are run through p_norm (p = 1..6 and 1.5, 2.5, 3.5) and sup_norm under 4 exact embeddings; TLC recomputes sum of integrals of |f|^p in 1e-16 fixed point from the observed critical points and requires agreement to 1e-9, finiteness, sup = max|y|, and the stability law with both sides observed.",
     note="Real p outside {1.5, 2.5, 3.5} on perfect-square ordinates is not decided. Stability-law inputs on which the exact sweep fires its repeated-bar shortcut (C03 known finding) are excluded by the as-coded sweep model. The genuine defect found (signed power) is repaired in /repo and recorded as fixed."),
+ "C16": dict(
+    cat="model_checking", ref="DESIGN.md 5/C16",
+    technique="TLA+ pipeline machine of persistent_entropy (listify, infinity handling, lengths, rejection, Shannon, normalisation) model-checked by TLC against a declarative outcome for every flag combination; spec->code replay of all enumerated (input, flags) cases; recorded calls validated by TLC with exact dyadic-family values (ln 2 table) in fixed point",
+    text="TLC checks OutcomeAsStated and CoefBounds for every combination of keep_inf / val_inf / normalize and every list of <=2 (thorough 3) diagrams from a pool containing dyadic families, equal bars, an infinite bar, a zero-length and a negative bar; all enumerated cases are replayed through the real function. Seeded Kraft-complete length multisets (entropy = ln2 * sum k_i 2^-k_i exactly), equal bars (= ln n), general barcodes, each with reordered / translated / rescaled copies in the same call, infinite bars under every flag choice, non-positive bars (must raise), array vs list input and a second call on the same arrays are validated by TLC to 1e-12: exact values, 0 <= E <= ln n, normalised in [0,1], one value per diagram in order, invariances, error outcomes.",
+    note="Absolute values only on dyadic and equal-length families (elsewhere bounds and invariance laws). ln 2 and ln n (n<=64) come from the generated Tables.tla (60-digit decimal), cross-checked by TLC ASSUMEs. Normalised entropy of a single bar (nan) is outside the property's domain."),
 }
 
 NOT_APPLICABLE_REASON = "check under construction in this round; see DESIGN.md section 5"
